@@ -122,6 +122,7 @@ func (o *vxOps) note(op string, req *SrvReq) {
 		o.mu.Unlock()
 	}
 	vxEvent("ops:" + op)
+	vxJitter()
 	if o.hook != nil {
 		o.hook(op, req)
 	}
